@@ -95,5 +95,42 @@ func registry() map[string]PropSpec {
 		},
 		Assumptions: []string{"github.com/buildkite/interpolate.Interpolate replaced by the Go-written model vpModelInterpolate (validated natively against the real library on every string of <= 6 symbols over a 11-symbol alphabet)", "strings.ToUpper modelled bytewise on ASCII"},
 	})
+	add(PropSpec{
+		ID: "C04",
+		Harnesses: []HSpec{
+			{Pkg: ".", Name: "c04_positions", Quick: map[string]int{"groups": 8}, Unwind: [2]int{48, 48},
+				Models: []string{"github.com/buildkite/interpolate.Interpolate=vpModelInterpolate"}, Validate: []string{"interpolate"},
+				What:   "(*Pipeline).Interpolate with the real envInterpolator on one instance of every step kind with a distinct string in every string position: each equals the single-pass expansion of the original (escaped references once), signature untouched, shapes unchanged; all map iteration orders and produced-or-skipped choices for entries inserted during iteration"},
+			{Pkg: ".", Name: "c04_walkers", Quick: map[string]int{"depth": 1}, Thorough: map[string]int{"depth": 2}, Unwind: [2]int{24, 32}, Budget: [2]int{120, 1500},
+				What: "interpolateAny/Slice/Map/OrderedMap and Plugin.interpolate with a marking transformer (injective, not idempotent) on arbitrary trees of strings, []any, []string, map[string]any, map[string]string, *MapSA, *MapSS, *Plugin, ints, bools, nil: result equals an independently built expected tree"},
+			{Pkg: ".", Name: "c04_error", Quick: map[string]int{}, Unwind: [2]int{48, 48},
+				Models: []string{"github.com/buildkite/interpolate.Interpolate=vpModelInterpolate"},
+				What:   "a failing expansion at any of five positions makes Interpolate return an error"},
+		},
+		Outside: []string{
+			"trees deeper than the bound; maps with more than 2 entries; strings longer than 1 symbolic byte plus concrete tags",
+			"subtrees shared between two positions (the decoder produces independent copies - C07)",
+			"the ${VAR<op>...} forms of the interpolate library",
+			"keys that collide after expansion (not defined by the property)",
+		},
+		Assumptions: []string{"github.com/buildkite/interpolate.Interpolate replaced by the validated Go-written model vpModelInterpolate"},
+	})
+	add(PropSpec{
+		ID: "C12",
+		Harnesses: []HSpec{
+			{Pkg: ".", Name: "c12_lang", Quick: map[string]int{"tail": 3}, Thorough: map[string]int{"tail": 4}, Unwind: [2]int{64, 64},
+				What: "bounded token-language agreement through matrixInterpolator.Transform on near-tokens ({{ junk matrix junk }} with symbolic junk): whole token for the code iff in the property's token language"},
+			{Pkg: ".", Name: "c12_transform", Quick: map[string]int{"tokens": 1, "lit": 1, "name": 1}, Thorough: map[string]int{"tokens": 2, "lit": 1, "name": 2}, Unwind: [2]int{64, 96},
+				What: "newMatrixInterpolator/Transform on lit·token·lit[·token·lit] with dangerous literals, optional inner whitespace, 0-2-byte dimension names and token-shaped values against a hand-written scanner of the property grammar: single pass, error iff unknown dimension"},
+			{Pkg: ".", Name: "c12_scope", Quick: map[string]int{}, Unwind: [2]int{64, 64},
+				What: "InterpolateMatrixPermutation field scope: command, label, plugin sources/configs, env values, unknown fields replaced; env names, key, matrix, signature untouched; empty permutation changes nothing"},
+		},
+		Extra: extraC12,
+		Outside: []string{
+			"strings longer than the bounds in the engine harnesses (the token-language equivalence query itself is unbounded)",
+			"non-ASCII input: Unicode whitespace is not \\s in RE2; bytes >= 0x80 are not explored",
+		},
+		Assumptions: []string{"regexp.ReplaceAllStringFunc/FindStringSubmatch executed by the engine's backtracking matcher (leftmost-first, captures) over the syntax tree regexp/syntax parses from the pattern constant found in the package initialiser"},
+	})
 	return r
 }
